@@ -842,6 +842,10 @@ impl<T: Transport, Env: UtpEnvironment> VirtualSocket<T, Env> {
             }
             PopExpiredProbe::NotExpired => {
                 trace!("MTU probe hasnt expired yet");
+                // Nothing new gets segmented while the probe is out, but what was written meanwhile still
+                // counts as unsent: the FIN must wait for it.
+                self.this_poll.unsegmented_data =
+                    tx_len.saturating_sub(self.user_tx_segments.total_len_bytes());
                 return Ok(());
             }
             PopExpiredProbe::Empty => {}
